@@ -11,6 +11,7 @@ Not decided: metamorphic invariance of solver results.
 
 import ast
 import collections
+import copy
 import itertools
 
 from sa.cfg import cfg_of
@@ -349,49 +350,93 @@ def r3(repo, res):
            expected="support >= max(min_coverage, total * threshold / cn)",
            found="ok on 1260 grid points" if bad is None else bad,
            clause="at least the configured minimum number of reads and the single-copy fraction threshold", key="threshold-formula")
-    # stage closures
-    for ref, closure, extra in (("major::_filter_alleles", "filter_fns", {}),
-                                ("minor::estimate_minor", "default_filter_fn", {})):
-        outer = repo.func(ref)
-        cl = [n for n in ast.walk(outer) if isinstance(n, ast.FunctionDef) and n.name == closure]
-        if not cl:
-            res.err("C15.R3", f"threshold closure {closure} not found in {ref}")
+    # stage closures: the enclosing routines are folded whole and the filter each hands to `.filtered(...)` is captured
+    from sa.fold import Lifted
+
+    struct = Obj(position_cn=lambda p: 2, solution={"1": 3}, label="S", _solution_nice=lambda: "S", max_cn=lambda: 3)  # 2 copies at the probed position, 3 in total
+
+    def capture_major():
+        f_ = repo.func("major::_filter_alleles")
+        res.analysed(f_)
+        got = []
+
+        class Raw:
+            _fold_ok = True
+            # the enclosing function's *raw* coverage: its counts include low-quality reads, so its threshold test succeeds
+            # whenever asked -- a closure consulting it gives the wrong table
+            profile = Obj(debug_probe="", cn_max=20)
+
+            def basic_filter(self, mut, cn=None, thres=None):
+                return True
+
+            def filtered(self, fn):
+                got.append(fn)
+                return self
+
+            def __getitem__(self, m):
+                return 1
+
+        Lifted(f_, funcs={"copy.deepcopy": copy.deepcopy, "natsorted": lambda it, key=None: sorted(it, key=key)},
+               env={"Coverage": Obj(quality_filter="QUALITY")})(Obj(alleles={}, get_rsid=lambda m: "rs"), Raw(), struct)
+        fns = [g for g in got if callable(g)]
+        if len(fns) != 1:
+            raise AnalysisError(f"_filter_alleles hands {len(fns)} threshold filters to Coverage.filtered (expected one)")
+        return f_, fns[0]
+
+    def capture_minor():
+        f_ = repo.func("minor::estimate_minor")
+        res.analysed(f_)
+        got = []
+
+        class Raw:
+            _fold_ok = True
+            profile = Obj(cn_max=20)
+            _coverage = {}
+
+            def basic_filter(self, mut, cn=None, thres=None):
+                return True
+
+            def filtered(self, fn):
+                if callable(fn):
+                    got.append(fn)
+                return self
+
+        def partial(fn_, *a):
+            return lambda *b: fn_(*a, *b)
+
+        major = Obj(score=0.0, cn_solution=struct, added=[], solution={}, label="M")
+        gene = Obj(alleles={}, random_mutations=set(), region_at=lambda p: (0, "e1"))
+        Lifted(f_, funcs={"SolvedAllele": lambda *a: a, "functools.partial": partial, "natsorted": lambda it, key=None: sorted(it, key=key),
+                          "_print_candidates": lambda *a: None, "solve_minor_model": lambda *a, **k: [], "Mutation": lambda *a: a},
+               env={"Coverage": Obj(quality_filter="QUALITY")})(gene, Raw(), [major], "any")
+        if len(got) != 1:
+            raise AnalysisError(f"estimate_minor hands {len(got)} threshold filters to Coverage.filtered for one structure (expected one)")
+        return f_, got[0]
+
+    for label, capture in (("major stage", capture_major), ("minor stage", capture_minor)):
+        try:
+            outer, fn = capture()
+        except AnalysisError as e:
+            res.err("C15.R3", str(e))
             continue
-        cl = cl[0]
-        res.analysed(cl)
-        argn = [a.arg for a in cl.args.args]
+        except (Unfoldable, Raised) as e:
+            res.err("C15.R3", f"{label}: enclosing routine outside folding language: {e}")
+            continue
         bad = None
         try:
             for passing in [set(), {20}, {2.5}, {20, 2.5}]:
                 for op in ("_", "A>G"):
-                    seen = []
-
-                    def bf(mut, cn=None, thres=None, _p=passing, _s=seen):
-                        _s.append(cn)
-                        return cn in _p
-
-                    cov = Obj(basic_filter=bf)
-                    struct = Obj(position_cn=lambda p: 2)
-                    # the enclosing function's *raw* coverage: its counts include low-quality reads, so its
-                    # threshold test succeeds whenever asked -- a closure consulting it gives the wrong table
-                    raw = Obj(profile=Obj(cn_max=20), basic_filter=lambda mut, cn=None, thres=None: True)
-                    env = {"coverage": raw, "mutations": set(), "gene": Obj(region_at=lambda p: (0, "e1"))}
-                    for a in argn:
-                        env[a] = struct
-                    env[argn[-2]] = cov
-                    env[argn[-1]] = Obj(pos=100, op=op)
-                    env["cn_solution"] = struct
-                    env["major_sol.cn_solution"] = struct
-                    k, v = Evaluator(env).run(cl.body)
+                    cov = Obj(basic_filter=lambda mut, cn=None, thres=None, _p=passing: cn in _p)
+                    v = fn(cov, Obj(pos=100, op=op))
                     want = (20 in passing) and (op == "_" or 2.5 in passing)
-                    if k != "return" or bool(v) != want:
-                        bad = f"passing copy numbers {sorted(passing)}, op {op}: got {v if k == 'return' else k}, expected {want}"
+                    if bool(v) != want:
+                        bad = bad or f"passing copy numbers {sorted(passing)}, op {op}: got {v}, expected {want}"
         except (Unfoldable, Raised) as e:
-            res.err("C15.R3", f"closure {closure} outside folding language: {e}")
+            res.err("C15.R3", f"{label}: threshold filter outside folding language: {e}")
             continue
-        res.ob("C15.R3", cl, cl, bad is None,
-               expected="keep iff basic_filter(cn=cn_max) and (reference op or basic_filter(cn=position copy number + 0.5))",
-               found="ok" if bad is None else bad, key=f"closure:{closure}")
+        res.ob("C15.R3", outer, outer, bad is None,
+               expected="keep iff basic_filter(cn=cn_max) and (reference op or basic_filter(cn=position copy number + 0.5)), asked of the coverage being filtered",
+               found="ok" if bad is None else bad, key=f"closure:{label}")
 
 
 def r4(repo, res):
